@@ -24,6 +24,7 @@ RULES = [
     Rule('C18.R4', 'a failing bank load stores nothing into synth/setup state before returning', 8),
     Rule('C18.R5', 'every failing path of the four loaders leaves a non-empty error text', 4),
     Rule('C18.R6', 'a callback slot and its user-data slot are re-wired from a matching pair', 12),
+    Rule('C18.R9', 'every track / channel number handed to the sequencer by a setter is validated there and a refusal is reported', 3),
     Rule('C18.R8', 'every chip wrapper hands the requested chip family on to its base (OPN2::reset reads the applied family back from the chip)', 6),
     Rule('C18.R7', 'accepted setting values lie in the documented range; the AUTO volume model resolves to the bank default wherever the live model is set from the setup', 3),
 ]
@@ -276,6 +277,21 @@ def twin_ok(field, rhs, conds, owned=()):
     return any(mentions(c, is_twin) for c in conds)
 
 
+# default-then-reapply: the function stores a default into live loop state and the load that calls it stores the requested value
+# again before anything can play (verified by reapplied_at_load: buildTimeLine assigns the field from a setter-owned twin)
+REAPPLIED_AT_LOAD = {'OpnMidiSequencer::LoopState::fullReset': 'loadMIDI clears the loop state before parsing; buildTimeLine re-applies the count from m_loopCount at the end of every successful load, and a failed load leaves no song to loop'}
+
+
+def reapplied_at_load(facts, field, owned):
+    for fn in facts.all_fns():
+        if short(fn.name) != 'buildTimeLine':
+            continue
+        for b, j, st, tgt, rhs, op in stores(fn):
+            if field_of(tgt) == field and rhs is not None and mentions(rhs, lambda x: x.get('k') == 'MemberExpr' and x['n'] in owned and x['n'] != field):
+                return True
+    return False
+
+
 SONG_OPTIONS = {'m_trackSolo', 'm_trackDisable', 'm_channelDisable'}
 PER_BANK_OVERRIDES = {'VolumeModel', 'lfoEnable', 'lfoFrequency', 'chipType'}      # named by the property
 
@@ -335,6 +351,12 @@ def r2_obligations(facts, mut):
             elif f in restored:
                 ok = True
                 why = 'temporary change inside one call: the function saves the field in a local and stores it back (pairing checked by C08.R3)'
+            elif rhs is None and op in ('++', '--') and 'LoopState::' in f:
+                ok = True
+                why = 'running counter of the loop passes: it counts down from a value that derives from the setting (the stores that assign it are separate obligations)'
+            elif fn.name in REAPPLIED_AT_LOAD and reapplied_at_load(facts, f, owned):
+                ok = True
+                why = 'reviewed: ' + REAPPLIED_AT_LOAD[fn.name]
             else:
                 ok = twin_ok(f, subst(rhs, sd) if rhs else rhs, conds, owned)
                 why = 'value derives from the requested setting' if ok else 'live value %s is overwritten with a value that does not derive from m_setup/hooks' % sf
@@ -490,6 +512,7 @@ def analyse(facts, tier):
     obls += r6_pairs(facts)
     obls += r7_ranges(facts)
     obls += r8_family_forwarded(facts)
+    obls += r9_index_validated(facts)
     return obls
 
 
@@ -617,4 +640,38 @@ def r8_family_forwarded(facts):
                            'initialised with %s instead of the requested family: OPN2::reset reads the family back from the chip, so opn2_getChipType() reports (and later resets keep) a chip type the user never set' % show(i)[:50]))
     if n < 6:
         raise build.AnalysisBroken('C18.R8: only %d chip constructors with a family parameter found' % n)
+    return out
+
+
+def r9_index_validated(facts):
+    """opn2_setTrackOptions / opn2_setChannelEnabled pass their index argument to sequencer methods.  Each such method must be able to
+    refuse (non-void result) and the setter must turn the refusal into its error return: an index that names no track stored as the
+    solo track mutes every track while the call reports success (sibling agreement: the on / off arms already do this)."""
+    out = []
+    n = 0
+    for name in ('opn2_setTrackOptions', 'opn2_setChannelEnabled'):
+        fns = facts.fns.get(name)
+        if not fns or fns[0].tree is None:
+            continue
+        fn = fns[0]
+        idx = [p for p in fn.params if 'Number' in (p.get('n') or '') or 'umber' in (p.get('n') or '')]
+        if not idx:
+            continue
+        fails = [(b, j, st) for b, j, st in fn.cfg.returns() if (const_of(st['s'].get('e')) or 0) < 0]
+        for b, j, st in fn.cfg.stmts(conds=True):
+            for x in calls_in(st['s']):
+                cn = callee_name(x)
+                if not cn or 'Sequencer::' not in cn or not any(strip(a).get('id') == idx[0]['id'] for a in x.get('a', [])):
+                    continue
+                n += 1
+                cf = facts.fns.get(cn, [None])[0]
+                nonvoid = cf is not None and (cf.d.get('ret') or {}).get('s') not in (None, 'void')
+                checked = any(any(short(callee_name(y)) == short(cn) for f in guard_facts(fn, fb, fst) for y in walk(f[1] if f[0] == 'truth' else [f[2], f[3]] if f[0] == 'cmp' else []) if isinstance(y, dict) and 'callee' in y)
+                              for fb, fj, fst in fails)
+                ok = nonvoid and checked
+                out.append(Obl('C18.R9', fn.name, '%s(%s)' % (short(cn), idx[0].get('n')), st['loc'], 'discharged' if ok else 'finding',
+                               why='the method can refuse and the refusal becomes the error return' if ok else
+                               '%s(%s) %s: an out-of-range number is stored and the call reports success (a solo track that does not exist mutes every track)' % (short(cn), idx[0].get('n'), 'returns void' if not nonvoid else 'is not checked')))
+    if n < 3 and facts.view not in ('noSEQ',):
+        raise build.AnalysisBroken('C18.R9: only %d index hand-overs to the sequencer found' % n)
     return out
